@@ -83,6 +83,7 @@ type PathResult struct {
 	Status   string
 	Detail   string
 	Decs     int
+	DecStr   string
 	Instrs   int
 	Forks    int
 	Asserts  int
@@ -147,6 +148,8 @@ func (cfg *JobCfg) defaults() {
 }
 
 var solverBin = "z3-new"
+
+var progress = os.Getenv("GOSYM_PROGRESS") != ""
 
 func runJob(prog *ssa.Program, cfg *JobCfg, nworkers int) *JobResult {
 	cfg.defaults()
@@ -240,6 +243,9 @@ func runJob(prog *ssa.Program, cfg *JobCfg, nworkers int) *JobResult {
 						res.Witnesses[k] = pr.Witness
 					}
 				}
+				if progress && res.Paths%200 == 0 {
+					fmt.Fprintf(os.Stderr, "  progress %s: paths=%d work=%d active=%d status=%v last=%s/%s decs=%s\n", cfg.Name, res.Paths, len(work), active, res.ByStatus, pr.Status, pr.Detail, pr.DecStr)
+				}
 				if res.Paths >= cfg.MaxPaths {
 					stop = true
 					res.Truncated = true
@@ -303,6 +309,9 @@ func (w *worker) runPath(prog *ssa.Program, fn *ssa.Function, cfg *JobCfg, item 
 	h := fnv.New64a()
 	for _, d := range e.prefix {
 		fmt.Fprintf(h, "%c%d,", d.Kind, d.Val)
+		if progress {
+			pr.DecStr += fmt.Sprintf("%c%d ", d.Kind, d.Val)
+		}
 	}
 	pr.Hash = h.Sum64()
 	for k := range e.covers {
